@@ -34,7 +34,10 @@ static int notfreed_warn;
 static void
 log_cb(LY_LOG_LEVEL level, const char *msg, const char *data_path, const char *schema_path, uint64_t line)
 {
-    (void)level; (void)data_path; (void)schema_path; (void)line;
+    (void)level; (void)schema_path; (void)line;
+    if (getenv("LYX_DEBUG")) {
+        fprintf(stderr, "LOG: %s (%s)\n", msg, data_path ? data_path : "");
+    }
     if (msg && strstr(msg, "not freed")) {
         ++notfreed_warn;
     }
